@@ -539,7 +539,15 @@ def token_present_at(prog, body, bb):
     """A dominating test shows `current token = Some` (via get_current_token_type / get_current_keyword_kind /
     get_current_token_index on self) with no `&mut` call on any path from that test to bb."""
     from progress import dominating_variant_facts, is_impure_call
-    for key, kind, vs in dominating_variant_facts(prog, body, bb):
+    facts = list(dominating_variant_facts(prog, body, bb))
+    # `guard() == Some(k)` (or `!= .. { return }`) written as a comparison of two Options: equal to a `Some` is `Some`
+    for cnd in dominating_conditions(body, bb):
+        if cnd[0] == "call" and cnd[1] in ("core::cmp::PartialEq::eq", "core::cmp::PartialEq::ne") and cnd[3] == cnd[1].endswith("::eq") and len(cnd[2]) == 2:
+            ab = [op_canon(body, a) for a in cnd[2]]
+            for g, o in (ab, ab[::-1]):
+                if o.startswith("Option::Some{") and "@" not in g:
+                    facts.append((g, "is", ("Some",)))
+    for key, kind, vs in facts:
         if kind != "is" or vs[0] != "Some" or "@" in key:
             continue
         if not (key.startswith("get_current_token_type(") or key.startswith("get_current_keyword_kind(") or key.startswith("get_current_token_index(")):
